@@ -1,4 +1,5 @@
 import ProductMD.Proofs.C08Images
+import ProductMD.Proofs.C08CI
 /-!
 # C08 - serialisation is canonical: the bytes written depend on the content only
 
@@ -164,4 +165,75 @@ theorem C08_repeat_images_state (s : ImgState) :
     cases r <;> exact .inr rfl
 
 end Img
+/-! ## composeinfo -/
+namespace CI
+
+/-- the same compose description: sections equal, variant forests equal up to the order of every child dict (at every
+level), of every arch set and of every path table (`VEq`/`LEq`, `Proofs/C08CI.lean`) -/
+structure Same (x y : ComposeInfo) : Prop where
+  compose : x.compose = y.compose
+  release : x.release = y.release
+  base : x.base = y.base
+  variants : LEq x.variants y.variants
+
+theorem Same.refl (x : ComposeInfo) : Same x x := ⟨rfl, rfl, rfl, LEq.refl _⟩
+
+/-- model domain: the children of a container are a Python dict, so their keys are pairwise distinct (at every level) -/
+def DictKeysTop (x : ComposeInfo) : Prop := (x.variants.map Variant.key).Nodup ∧ DictKeysL x.variants
+
+/-- any rearrangement of the top-level variants is the same content -/
+theorem Same.of_perm (x : ComposeInfo) (vs : List Variant) (h : x.variants.Perm vs) : Same x { x with variants := vs } :=
+  ⟨rfl, rfl, rfl, LEq.of_perm h⟩
+
+theorem serialize_of_variants (x y : ComposeInfo) (h : Same x y) (d : Flat) (hx : variantsSer x.variants = .ok d)
+    (hy : variantsSer y.variants = .ok d) : serialize y = serialize x := by
+  unfold serialize
+  rw [← h.compose, ← h.release, ← h.base, hx, hy]
+
+/-- **C08 (composeinfo).**  The same content is written as the same bytes, whatever the order in which variants (at any
+level), arches and paths were added. -/
+theorem C08_perm_composeinfo (x y : ComposeInfo) (h : Same x y) (hk : DictKeysTop x) (b : Str)
+    (hx : dumps x = .ok b) : dumps y = .ok b := by
+  cases hv : variantsSer x.variants with
+  | ok d =>
+    have hy := variantsSer_leq h.variants hk.1 hk.2 d hv
+    unfold dumps at hx ⊢
+    rw [serialize_of_variants x y h d hv hy]
+    exact hx
+  | error e =>
+    exfalso
+    unfold dumps serialize at hx
+    rw [hv] at hx
+    revert hx
+    generalize validateClass "composeinfo.ComposeInfo" [] = r0
+    generalize validateClass "common.Header" (headerObj (.str currentVersion)) = r1
+    generalize validateClass "composeinfo.Compose" (composeObj x.compose) = r2
+    generalize validateClass "composeinfo.Release" (releaseObj x.release) = r3
+    generalize (if x.release.isLayered then validateClass "composeinfo.BaseProduct" (baseObj x.base) else .ok ()) = r4
+    intro hx
+    cases r0 with
+    | error e => simp at hx
+    | ok u0 =>
+      cases r1 with
+      | error e => simp at hx
+      | ok u1 =>
+        cases r2 with
+        | error e => simp at hx
+        | ok u2 =>
+          cases r3 with
+          | error e => simp at hx
+          | ok u3 =>
+            cases r4 with
+            | error e => simp at hx
+            | ok u4 => simp at hx
+
+/-- whether a dump succeeds does not depend on the order either -/
+theorem C08_perm_composeinfo_ok (x y : ComposeInfo) (h : Same x y) (hk : DictKeysTop x) :
+    isOk (dumps x) = true → isOk (dumps y) = true := by
+  intro hx
+  cases hd : dumps x with
+  | error e => rw [hd] at hx; cases hx
+  | ok b => rw [C08_perm_composeinfo x y h hk b hd]; rfl
+
+end CI
 end PM
